@@ -240,13 +240,21 @@ def body(case):
         if not np.allclose(sp, spots.reshape(n, -1), rtol=1e-12):
             out.append(Violation("C07/spot-statistics", f"{sp[:3]} vs {spots[:3]}; {detail}"))
     if X is None:
-        with_cv = np.atleast_1d(np.asarray(stats.price(), dtype=float))
-        if not np.allclose(with_cv, raw, rtol=0, atol=0):
-            out.append(Violation("C07/price-without-controls-differs", f"{with_cv} vs {raw}"))
+        # without controls there is one set of samples: however the flag is spelled, the same price and error
+        for spelled, kw in (("default", {}), ("explicit-False", {"no_control_variates": False})):
+            with_cv = np.atleast_1d(np.asarray(stats.price(**kw), dtype=float))
+            if with_cv.shape != raw.shape or not np.array_equal(with_cv, raw):
+                out.append(Violation(f"C07/price-without-controls-differs/{spelled}", f"{with_cv} vs {raw}; {detail}"))
+            err_kw = np.atleast_1d(np.asarray(stats.mc_stddev(**kw), dtype=float))
+            if err_kw.shape != err.shape or not np.array_equal(err_kw, err):
+                out.append(Violation(f"C07/error-without-controls-differs/{spelled}", f"{err_kw} vs {err}; {detail}"))
         return out
     # control variates
     adj_lib = np.asarray(stats._payoff_statistics_with_cv.stats, dtype=float).reshape(n, -1)
     price_cv = np.atleast_1d(np.asarray(stats.price(), dtype=float))
+    price_cv_f = np.atleast_1d(np.asarray(stats.price(no_control_variates=False), dtype=float))
+    if price_cv_f.shape != price_cv.shape or not np.array_equal(price_cv_f, price_cv, equal_nan=True):
+        out.append(Violation("C07/price-with-controls-differs/explicit-False", f"{price_cv_f} vs {price_cv}; {detail}"))
     if n < 2:
         return out
     xc = X - X.mean(axis=0)
